@@ -123,3 +123,65 @@ def c01_trivial(isa, case, nports, mnemonic):
     ok = (f.port_pressure == [0.0] * nports and f.throughput == 0.0 and f.latency == 0.0 and f.latency_wo_load == 0.0 and f.port_uops == []
           and (("tp_unknown" in f.flags and "lt_unknown" in f.flags) == (case != "nomnemonic")))
     return (not ok), f"assign_tp_lt({case}, {isa}, {nports} ports, mnemonic={mnemonic!r}): pressure={f.port_pressure} tp={f.throughput} lat={f.latency} flags={f.flags}"
+
+
+@replay
+def c06_memload(prefix, store, load, changes):
+    from osaca.semantics.kernel_dg import KernelDG
+    from osaca.parser import InstructionForm
+    from osaca.parser.register import RegisterOperand as R
+    from osaca.parser.memory import MemoryOperand as M
+    from osaca.parser.immediate import ImmediateOperand as Imm
+    reg = lambda n: R(name=n, prefix=prefix) if n is not None else None
+    mem = M(offset=Imm(value=store["offset"]) if store["offset"] is not None else None, base=reg(store["base"]), index=reg(store["index"]), scale=store["scale"])
+    lo = load["offset"]
+    src = M(offset=None if lo is None else Imm(value=None if lo == "IMMNONE" else lo), base=reg(load["base"]), index=reg(load["index"]), scale=load["scale"], pre_indexed=load["pre"])
+    ch = {k: (None if v is None else {"name": v[0], "value": v[1]}) for k, v in changes.items()}
+    f = InstructionForm(mnemonic="ld")
+    f.semantic_operands = {"source": [reg("c"), src], "destination": [reg("c")], "src_dst": []}
+    got = bool(KernelDG.is_memload(object.__new__(KernelDG), mem, f, ch))
+    pf = prefix or ""
+    def tracked(n):
+        return ch.get(pf + n, {"name": pf + n, "value": 0})
+    want = (store["base"] is None) == (load["base"] is None) and (store["index"] is None) == (load["index"] is None)
+    delta = (lo if isinstance(lo, int) and not load["pre"] else 0) - (store["offset"] or 0)
+    if want and load["base"] is not None:
+        t = tracked(load["base"])
+        want = t is not None and t["name"] == pf + store["base"]
+        delta += t["value"] if t else 0
+    if want and load["index"] is not None:
+        t = tracked(load["index"])
+        want = t is not None and t["name"] == pf + store["index"] and store["scale"] == load["scale"]
+        delta += (t["value"] if t else 0) * load["scale"]
+    want = bool(want and delta == 0)
+    return got != want, f"is_memload(store={store}, load={load}, changes={changes}, prefix={prefix!r}) = {got}, same location = {want}"
+
+
+@replay
+def c04_cp(lat, lwl, loads, edges):
+    import networkx as nx
+    from osaca.semantics.kernel_dg import KernelDG
+    from osaca.parser import InstructionForm
+    n = len(lat)
+    lat = [float(Fraction(x)) for x in lat]; lwl = [float(Fraction(x)) for x in lwl]
+    kernel = []
+    for i in range(n):
+        f = InstructionForm(mnemonic="op", line_number=i + 1); f.latency = lat[i]; f.latency_wo_load = lwl[i]; f.latency_cp = 0
+        kernel.append(f)
+    dg = nx.DiGraph()
+    for i in range(n):
+        dg.add_node(i + 1)
+        if loads[i]:
+            dg.add_edge(i + 1 + 0.1, i + 1, latency=lat[i] - lwl[i])
+    ew = {}
+    for a, b, w in edges:
+        dg.add_edge(a + 1, b + 1, latency=float(Fraction(w))); ew[(a, b)] = float(Fraction(w))
+    k = object.__new__(KernelDG); k.kernel = kernel; k.dg = dg
+    cp = k.get_critical_path()
+    got = sum(x.latency_cp for x in cp)
+    best = [0.0] * n
+    for j in range(n):
+        c = [lat[j] - lwl[j] if loads[j] else 0.0] + [best[a] + w for (a, b), w in ew.items() if b == j]
+        best[j] = max(c)
+    want = max(best[i] + lwl[i] for i in range(n))
+    return abs(got - want) > 1e-9, f"get_critical_path total {got} (lines {[x.line_number for x in cp]}), longest chain {want}; lat={lat} lwl={lwl} loads={loads} edges={edges}"
